@@ -230,6 +230,14 @@ def clientCertOk (v : Nat) (c s : Caps) (k : KeyType) : Bool :=
   | .ecdsa g => if v ≤ tls12 then c.groups.contains g && s.groups.contains g else true
   | _ => true
 
+/-- client authentication, CertificateVerify (RFC 5246 7.4.8, RFC 8446 4.4.3): in TLS >= 1.2 the client
+    must sign with a scheme the server listed in its CertificateRequest (`s.sigs`), that the client
+    itself supports (`c.sigs`) and that fits its key; TLS 1.0/1.1 use the fixed legacy hashes. -/
+def clientSigOk (v : Nat) (c s : Caps) (k : KeyType) : Bool :=
+  if v == tls13 then (common c.sigs s.sigs).any (sigFits13 k)
+  else if v == tls12 then (common c.sigs s.sigs).any (sigFits12 k)
+  else (k == .rsa || k == .dsa || (match k with | .ecdsa _ => true | _ => false))
+
 /-! ## ALPN (RFC 7301 3.2): the server selects a protocol the client offered -/
 
 def expectedAlpn (clientProtos serverProtos : List String) : List String :=
